@@ -169,8 +169,7 @@ def variant(cfg: dict, rng: Rng, mode: str) -> dict:
         return rig.mutate_cfg(cfg, rng)
     cfg = copy.deepcopy(cfg)
     sim = cfg.setdefault("simulation", {}).setdefault("network", {})
-    if rng.chance(2, 3):
-        sim["nmne_config"] = {"capture_nmne": rng.chance(2, 3), "nmne_capture_keywords": ["DELETE", "SELECT"]}
+    rig.gen_nmne_config(sim, rng)
     for agent in rl_agents(cfg):
         agent["observation_space"] = gen_osp(cfg, rng)
         if "agent_settings" in agent and rng.chance(1, 2):
@@ -288,8 +287,18 @@ def run_recipe(ctx, recipe: dict, chaos: Optional[Callable] = None) -> dict:
     import gymnasium
     import numpy as np
     tmp = Path(tempfile.mkdtemp(prefix="verif_obs_"))
+    override = None
     try:
         source, constant = build_source(recipe, tmp)
+        override = rig.NmneOverride(recipe.get("nmne_override"))
+        override.__enter__()
+        ov = recipe.get("nmne_override")
+        ctx.count("env:process-wide-nmne-override:" + ("none" if ov is None else "capture-on" if ov.get("capture_nmne") else "capture-off"))
+        if isinstance(source, dict):
+            nc = source.get("simulation", {}).get("network", {}).get("nmne_config", "<absent>")
+            ctx.count("env:network-nmne_config:" + ("absent" if nc == "<absent>" else "empty" if nc == {} else
+                                                      ("capture-on" if nc.get("capture_nmne") else "capture-off")
+                                                      + ("+capture_by_flags" if any(k.startswith("capture_by") for k in nc) else "")))
         rng = Rng(recipe["traj_seed"])
         want_truth = bool(recipe.get("truth"))
         use_chaos = chaos if recipe.get("chaos") else None
@@ -402,7 +411,7 @@ def run_recipe(ctx, recipe: dict, chaos: Optional[Callable] = None) -> dict:
                 mgr = agent.observation_manager
                 pre = recd.log.get(id(mgr), [])
                 sec = agent_section(ep_cfg, name)
-                lines = ["reset", f"capture {rig.B(rig.capture_flag())}"]
+                lines = ["reset"]
                 mode = "scenario"
                 try:
                     if sec is None or len(pre) == 0:
@@ -415,7 +424,7 @@ def run_recipe(ctx, recipe: dict, chaos: Optional[Callable] = None) -> dict:
                     pre = pre[-1:]
                 ctx.count("env:model-object-from-" + mode)
                 lines.append("space")
-                impl: List[Any] = ["ok", "ok", "ok", rig.canon_space(mgr.space)]
+                impl: List[Any] = ["ok", "ok", rig.canon_space(mgr.space)]
                 for st in pre[:-1]:
                     lines.append("obs " + " ".join(rig.state_tokens(st)[0]))
                     impl.append(None)
@@ -451,10 +460,13 @@ def run_recipe(ctx, recipe: dict, chaos: Optional[Callable] = None) -> dict:
         env.close()
         return {"tracks": tracks, "oracle_fail": oracle_fail, "incoherent": incoherent, "recipe": recipe, "constant": constant}
     finally:
+        if override is not None:
+            override.__exit__()
         shutil.rmtree(tmp, ignore_errors=True)
 
 
 # =============================================================================================== comparison with the model
+CFG_AT, SPACE_AT = 1, 2  # track lines: reset, rawcfg | cfg, space, [pre-states…], snapshots…
 def model_lines(res: dict) -> List[Tuple[str, List[str]]]:
     return [(key, tr["lines"]) for key, tr in res["tracks"].items()]
 
@@ -490,16 +502,16 @@ def check_env(ctx, rname: str, res: dict, model_by_track: Dict[str, List[str]], 
         ctx.violation(sig, f"{rname}: episode {f['episode']} step {f['step']} agent {f['agent']}: {f['bad']}", {"recipe": recipe, "failure": f})
     for key, tr in res["tracks"].items():
         model = model_by_track[key]
-        if model[2] != "ok":
+        if model[CFG_AT] != "ok":
             agree = False
             ctx.violation({"kind": "model-vs-impl", "what": "construction accepted/rejected", "class": "env"},
-                          f"{rname} {key}: the implementation built the observation space of this agent, the model answers {model[2]!r}",
+                          f"{rname} {key}: the implementation built the observation space of this agent, the model answers {model[CFG_AT]!r}",
                           {"recipe": recipe, "track": key})
             continue
-        mspace = rig.parse_val(model[3].split())
-        if mspace != tr["impl"][3]:
+        mspace = rig.parse_val(model[SPACE_AT].split())
+        if mspace != tr["impl"][SPACE_AT]:
             agree = False
-            ctx.violation({"kind": "model-vs-impl", "what": "space", "class": "env"}, f"{rname} {key}: space differs: {rig.first_diff(tr['impl'][3], mspace)}",
+            ctx.violation({"kind": "model-vs-impl", "what": "space", "class": "env"}, f"{rname} {key}: space differs: {rig.first_diff(tr['impl'][SPACE_AT], mspace)}",
                           {"recipe": recipe, "track": key})
         if tr["show_at"] is not None and model[tr["show_at"]] != tr["impl"][tr["show_at"]]:
             agree = False
